@@ -39,6 +39,41 @@ except ImportError:  # pragma: no cover
     InvalidStateError = RuntimeError
 
 
+_HASH_SERIAL = [0]
+HASH_SALT = [0]  # case["hsalt"]: a different (still deterministic) iteration order for sets of futures
+
+
+def _install_deterministic_identity():
+    """Future objects hash (and the stdlib's wait() orders its lock acquisitions) by memory address, so the iteration
+    order of a set of futures - CancelOnShutdownExecutor._futures, the sets inside concurrent.futures.wait - changes
+    from process to process and a case would not replay.  Give every future a serial number at its first hash() instead
+    (deterministic given the schedule; equality stays identity)."""
+    import concurrent.futures._base as base
+
+    if getattr(base.Future, "_verif_hash", False):
+        return
+
+    def __hash__(self):
+        d = self.__dict__
+        h = d.get("_verif_h")
+        if h is None:
+            _HASH_SERIAL[0] += 1
+            h = _HASH_SERIAL[0]
+            if HASH_SALT[0]:
+                h = (h * 40503 + HASH_SALT[0] * 7919) % 65521
+            d["_verif_h"] = h
+        return h
+
+    base.Future.__hash__ = __hash__
+    base.Future._verif_hash = True
+
+    class _AcquireFutures(base._AcquireFutures):
+        def __init__(self, futures):
+            self.futures = sorted(futures, key=hash)
+
+    base._AcquireFutures = _AcquireFutures
+
+
 def _install_cancel_recorder():
     """Record every cancel() call arriving at a library future (observation from outside, no source hook)."""
     from more_executors._impl import common
@@ -79,6 +114,7 @@ def _install_cancel_recorder():
 
 
 _install_cancel_recorder()
+_install_deterministic_identity()
 
 
 class E0(Exception):
@@ -1096,6 +1132,7 @@ def reset_library_globals():
     import more_executors._impl.event as ev
 
     ft.EXECUTOR_REF = None
+    _HASH_SERIAL[0] = 0
     pc = sys.modules.get("prometheus_client")
     if pc is not None and hasattr(pc, "reset"):
         pc.reset()
